@@ -20,6 +20,7 @@ import (
 	"io"
 	"math/big"
 	"sort"
+	"strings"
 	"sync"
 	"testing"
 
@@ -735,4 +736,144 @@ func TestVerifC18_pb_verifier(t *testing.T) {
 	r.RequireCounter("class:PS byte non-zero", nj*2*29)
 	r.RequireCounter("accepted:honest", nj)
 	r.RequireCounter("both_refuse", nj*1200)
+}
+
+// ---------------------------------------------------------------------------------------------
+
+// TestVerifC18_pb_history: every operation sequence of length 3 (hence every one up to depth 3, checked after each
+// step) on ONE Verifier (whose single hash.Hash is exposed through Hash()) and ONE Signer: results must depend on
+// the explicit arguments only, i.e. equal what fresh objects give.
+func TestVerifC18_pb_history(t *testing.T) {
+	r := verifmc.Start(t, "C18", "pb_history")
+	defer r.Finish()
+	vs := &c18Sink{}
+	defer vs.Flush(r)
+	opNames := []string{"Hash.Write(0B)", "Hash.Write(1B)", "Hash.Write(64B)", "Hash.Sum", "FixedBlind+Sign+Finalize(m0)", "Blind(reader)+Sign+Finalize(m1)", "Verify(good)", "Verify(bad)"}
+	r.Rule("safe-prime key 0: all 8^3 sequences over {write 0/1/64 bytes into Verifier.Hash(), Hash().Sum, FixedBlind(m0,md0,fixed salt,fixed blind)+BlindSign+Finalize, " +
+		"Blind(reader with fixed blind; salt from crypto/rand)(m1,md1)+BlindSign+Finalize, Verify(honest sig), Verify(bit-flipped sig)} on one Verifier and one Signer, checked after every step: " +
+		"FixedBlind flow byte-identical (blinded message, signature) to fresh objects, every produced signature accepted by the crypto/rsa oracle for the derived key and by a fresh Verifier; " +
+		"non-trivial = distinct sequence")
+	r.Set("alphabet", opNames)
+	r.Set("depth", 3)
+	k := c18pKeys(t, r)[0]
+	m0, md0 := []byte("history-0"), []byte("md")
+	m1, md1 := verifmc.Msg(200), []byte{}
+	salt := c18Rep(0x02, 48)
+	blind := c18pBlinds(k, false)[2].r
+	rInv := new(big.Int).ModInverse(blind, k.sk.N)
+	ref := c18pRun(k, m0, md0, salt, blind, false)
+	if ref.stage != "" || !k.oracle(m0, md0, ref.sig) {
+		vs.Violation("C18|partiallyblindrsa.history|fresh objects do not produce a valid signature", k.name, fmt.Sprintf("stage %q err %v", ref.stage, ref.err), nil)
+		return
+	}
+	badSig := verifmc.Flip(ref.sig, 13)
+	nOps := len(opNames)
+	total := nOps * nOps * nOps
+	verifmc.ParallelFor(total, func(hi int) {
+		seq := []int{hi / (nOps * nOps), hi / nOps % nOps, hi % nOps}
+		names := []string{opNames[seq[0]], opNames[seq[1]], opNames[seq[2]]}
+		id := fmt.Sprintf("%s/[%s]", k.name, strings.Join(names, ","))
+		if !r.Want(id) {
+			return
+		}
+		ver := pb.NewVerifier(&k.sk.PublicKey, c18H)
+		signer, err := pb.NewSigner(k.sk, c18H)
+		if err != nil {
+			vs.Violation("C18|partiallyblindrsa.NewSigner|refuses a safe-prime key", id, err.Error(), nil)
+			return
+		}
+		r.Trace(1)
+		r.Distinct(id)
+		dirty := false // bytes written into the exposed hash since the last protocol operation
+		for step, op := range seq {
+			at := fmt.Sprintf("%s step %d (%s)", id, step+1, opNames[op])
+			fail := func(class, what string) {
+				st := "clean exposed hash"
+				if dirty {
+					st = "after writes to Verifier.Hash()"
+				}
+				vs.Violation(fmt.Sprintf("C18|partiallyblindrsa.history|%s|%s|%s", class, opNames[op], st), id, at+": "+what,
+					map[string]string{"key": k.name, "history": strings.Join(names[:step+1], ",")})
+			}
+			finish := func(blinded []byte, state pb.VerifierState, msg, md []byte) []byte {
+				bs, err := signer.BlindSign(blinded, md)
+				if err != nil {
+					fail("flow fails on reused objects", "BlindSign: "+err.Error())
+					return nil
+				}
+				sig, err := state.Finalize(bs)
+				if err != nil {
+					fail("flow fails on reused objects", "Finalize: "+err.Error())
+					return nil
+				}
+				if !k.oracle(msg, md, sig) {
+					fail("signature not valid RSASSA-PSS under the derived key (crypto/rsa)", "sig "+verifmc.Hex(sig))
+				}
+				if err := c18pVerify(k, msg, md, sig); err != nil {
+					fail("signature refused by a fresh Verifier", err.Error())
+				}
+				return sig
+			}
+			r.Transition(1)
+			r.Eval(1)
+			p, what := verifmc.Try(func() {
+				switch op {
+				case 0, 1, 2:
+					n := []int{0, 1, 64}[op]
+					ver.Hash().Write(verifmc.Shake("c18-history-write", n))
+					dirty = dirty || n > 0
+					r.Count("hash_writes", 1)
+				case 3:
+					_ = ver.Hash().Sum(nil)
+				case 4:
+					if dirty {
+						r.Count("sign_after_dirty_hash", 1)
+					}
+					blinded, state, err := ver.FixedBlind(m0, md0, salt, blind.Bytes(), rInv.Bytes())
+					if err != nil {
+						fail("flow fails on reused objects", "FixedBlind: "+err.Error())
+						return
+					}
+					sig := finish(blinded, state, m0, md0)
+					if sig != nil && (!bytes.Equal(blinded, ref.blinded) || !bytes.Equal(sig, ref.sig)) {
+						fail("result differs from fresh objects", fmt.Sprintf("sig %s, fresh objects give %s", verifmc.Hex(sig), verifmc.Hex(ref.sig)))
+					}
+					dirty = false
+					r.Count("signatures_compared_with_fresh", 1)
+				case 5:
+					if dirty {
+						r.Count("sign_after_dirty_hash", 1)
+					}
+					blinded, state, err := ver.Blind(&c18Seq{data: pss.I2OSP(blind, k.rk.K())}, m1, md1)
+					if err != nil {
+						fail("flow fails on reused objects", "Blind: "+err.Error())
+						return
+					}
+					finish(blinded, state, m1, md1)
+					dirty = false
+					r.Count("signatures_via_Blind(reader)", 1)
+				case 6:
+					if err := ver.Verify(m0, md0, ref.sig); err != nil {
+						fail("honest signature refused on a reused verifier", err.Error())
+					}
+					r.Count("verify_good", 1)
+				case 7:
+					if err := ver.Verify(m0, md0, badSig); err == nil {
+						fail("altered signature accepted on a reused verifier", "flipped bit 13")
+					}
+					r.Count("verify_bad", 1)
+				}
+			})
+			if p {
+				fail("panic:"+verifmc.PanicClass(what), what)
+				return
+			}
+		}
+	})
+	r.State(total)
+	r.Sample(map[string]string{"case": k.name + "/[Hash.Write(64B),Hash.Sum,FixedBlind+Sign+Finalize(m0)]", "oracle": "byte equality with fresh objects + crypto/rsa oracle + fresh Verifier"})
+	r.RequireCounter("signatures_compared_with_fresh", 3*64)
+	r.RequireCounter("signatures_via_Blind(reader)", 3*64)
+	r.RequireCounter("sign_after_dirty_hash", 64)
+	r.RequireCounter("verify_bad", 3*64)
 }
